@@ -161,6 +161,28 @@ func c15Position(c *engine.Ctx, in []byte, args map[string]string) {
 	}
 }
 
+// long-line documents: an error with many single- and multi-byte characters before and after it on the same line
+type longLineTmpl struct {
+	space string
+	doc   func(pre, tail string) string
+}
+
+var longLineChars = []string{"x", "\u00e9", "\u2318", "\U0001F600", "%d", "%"}
+
+func longLineTemplates() []longLineTmpl {
+	return []longLineTmpl{
+		{"json-parse", func(pre, tail string) string { return "[\"" + pre + "\", 1 @ \"" + tail + "\"]" }},
+		{"json-parse", func(pre, tail string) string { return "{\"" + pre + "\": \x00\"" + tail + "\"}" }},
+		{"xml-lex", func(pre, tail string) string { return "<a b=\"" + pre + "\">\x00" + tail + "</a>" }},
+		{"xml-lex", func(pre, tail string) string { return "<a>" + pre + "<b \x00 c='" + tail + "'/>" }},
+		{"html-lex", func(pre, tail string) string { return "<p>" + pre + "<a \x00" + tail + ">" }},
+		{"js-lex", func(pre, tail string) string { return "'" + pre + "'; @ '" + tail + "'" }},
+		{"js-lex", func(pre, tail string) string { return "/*" + pre + "*/ \\ /*" + tail + "*/" }},
+		{"js-parse", func(pre, tail string) string { return "x = '" + pre + "' + ; '" + tail + "'" }},
+		{"css-parse", func(pre, tail string) string { return "a{b:'" + pre + "'}} c{d:'" + tail + "'}" }},
+	}
+}
+
 // c15Insert: a valid document with one illegal character inserted at a token boundary.
 // input = the document with the character; args: lang, off (offset of the inserted character)
 func c15Insert(c *engine.Ctx, in []byte, args map[string]string) {
@@ -438,28 +460,14 @@ func c15Work(c *engine.Ctx) {
 	// context is cut to a window counted in characters, the input is cut in bytes)
 	{
 		counts := []int{0, 1, 10, 20, 21, 22, 30, 59, 60, 61, 62, 63, 64, 65, 66, 100}
-		type tmpl struct {
-			space string
-			doc   func(pre, tail string) string
-		}
-		tmpls := []tmpl{
-			{"json-parse", func(pre, tail string) string { return "[\"" + pre + "\", 1 @ \"" + tail + "\"]" }},
-			{"json-parse", func(pre, tail string) string { return "{\"" + pre + "\": \x00\"" + tail + "\"}" }},
-			{"xml-lex", func(pre, tail string) string { return "<a b=\"" + pre + "\">\x00" + tail + "</a>" }},
-			{"xml-lex", func(pre, tail string) string { return "<a>" + pre + "<b \x00 c='" + tail + "'/>" }},
-			{"html-lex", func(pre, tail string) string { return "<p>" + pre + "<a \x00" + tail + ">" }},
-			{"js-lex", func(pre, tail string) string { return "'" + pre + "'; @ '" + tail + "'" }},
-			{"js-lex", func(pre, tail string) string { return "/*" + pre + "*/ \\ /*" + tail + "*/" }},
-			{"js-parse", func(pre, tail string) string { return "x = '" + pre + "' + ; '" + tail + "'" }},
-			{"css-parse", func(pre, tail string) string { return "a{b:'" + pre + "'}} c{d:'" + tail + "'}" }},
-		}
+		tmpls := longLineTemplates()
 		for _, tm := range tmpls {
 			sp := c.SpaceByName("err:" + tm.space)
 			if sp == nil {
 				continue
 			}
 			cfgs := cfgsFor([]string{tm.space})
-			for _, ch := range []string{"x", "\u00e9", "\u2318", "\U0001F600", "%d", "%"} {
+			for _, ch := range longLineChars {
 				for _, np := range counts {
 					for _, nt := range counts {
 						k++
